@@ -354,8 +354,7 @@ def evaluate_packer(fmt: str, desc: Any) -> tuple[list, int]:  # noqa: ANN401, C
                 found.append(Finding("end-offset", cls, "" if offset == 0 else "@embedded", fmt,
                                      f"{fmt}: Packer.unpack at offset {offset} returned {end}, the encoding ends at {want_end}"))
             else:
-                again = packer.pack(*(tuple(got) if fmt == "bits" else (got[0] if fmt not in dom.MULTI_VALUE else got[0])
-                                      if False else _repack_args(fmt, got)))
+                again = packer.pack(*_repack_args(fmt, got))
                 if again != enc:
                     found.append(Finding("reencode", cls, "", fmt, f"{fmt}: re-packing the unpacked value changes the bytes"))
             if single:
